@@ -39,7 +39,7 @@ def roles(p):
     loops = [f for f in fns if f.back_edges() and f.calls(mv[0].path)]
     if len(loops) != 1:
         raise AnchorMissing("expected one looping function calling the move helper in Cone(FixedWindowRoller::roll), found %s" % [f.path for f in loops])
-    r["rotate"] = loops[0]
+    r["rotate"] = p.fn_closure_calls(loops[0].path)     # a local closure naming the archive path is a local helper
     rot = r["rotate"]
     head = loop_head(rot, mv[0].path)
     comp = [c for c in rot.calls() if c.callee in p.fns and not rot.in_loop(c.block) and c.callee != EXPAND and head is not None and rot.dominates(head, c.block)]
@@ -375,13 +375,15 @@ def rule_move_file(ctx, p, cfg, rid="R5"):
             if blk["term"]["k"] == "switch" and blk["id"] in m.reach(ert, include_src=True):
                 si = SwitchInfo(m, blk["id"])
                 nf = cmp_nf(si.discr, True)
-                if nf and nf[0] == "Eq" and any(x[0] == "agg" and x[2] == "NotFound" or (x[0] == "const" and x[2] == "NotFound") for y in (nf[1], nf[2]) for x in walk(y)) \
+                if nf and nf[0] in ("Eq", "Ne") and any(x[0] == "agg" and x[2] == "NotFound" or (x[0] == "const" and x[2] == "NotFound") for y in (nf[1], nf[2]) for x in walk(y)) \
                         and any(x[0] == "call" and x[1] == "std::io::error::Error::kind" for y in (nf[1], nf[2]) for x in walk(y)):
                     nf_sw = si
+                    nf_eq = nf[0] == "Eq"
         r.require(nf_sw is not None, "notfound-tested", fn=m, detail="the rename error kind is compared with NotFound")
         if nf_sw and cp:
-            tt, ft = nf_sw.target_of(True), nf_sw.target_of(False)
-            r.require(cp[0].block not in m.reach(tt, include_src=True), "notfound-tolerated", fn=m, detail="NotFound => Ok without copy (missing intermediate archives are fine)")
+            tt, ft = nf_sw.target_of(nf_eq), nf_sw.target_of(not nf_eq)     # tt: the kind is NotFound
+            r.require(cp[0].block not in m.reach(tt, include_src=True) or (cp[0].block in m.reach(ft, include_src=True) and m.dominates(ft, cp[0].block)), "notfound-tolerated", fn=m,
+                      detail="NotFound => Ok without copy (missing intermediate archives are fine)")
             tr = [e for b, e in q.ret_assignments(m) if b in m.reach(tt, include_src=True) and b not in m.reach(ft, include_src=True)]
             r.require(cp[0].block in m.reach(ft, include_src=True), "other-errors-fall-back-to-copy", fn=m, detail="any other rename error falls back to copy")
         if cp:
@@ -582,6 +584,10 @@ def run_cfg(ctx, p, cfg):
                 continue
             if "Derive" in (f.d.get("exp") or ""):
                 continue
+            if f.path == ro["rotate"].path:
+                f = ro["rotate"]      # with its local closures spliced in
+            elif f.d.get("closure_of") == ro["rotate"].path and f.path in (getattr(ro["rotate"], "inlined", None) or ()):
+                continue              # already part of that view
             for c in f.calls():
                 if c.callee in FS_MUTATORS:
                     sites.append(c)
@@ -633,6 +639,9 @@ def path_provenance_ok(p, f, a, ro, pr):
             return (any(x == ("param", 2) for x in params), "the file handed to Roll::roll")
         root = f.d.get("closure_of") or f.path
         callers = p.all_calls(root)
+        if any(c.fn.path == ro["rotate"].path for c in callers):
+            # the shift function is examined with its local closures spliced in (roles)
+            callers = [c for c in callers if c.fn.path != ro["rotate"].path] + list(ro["rotate"].calls(root))
         if not callers and f.d.get("closure_of"):
             return True, "closure capture of %s" % root
         if callers:
